@@ -21,7 +21,11 @@ type gen struct {
 func (g *gen) valset(n, base int, maxw int) []Val {
 	vs := []Val{}
 	for i := 0; i < n; i++ {
-		vs = append(vs, Val{A: uint32(base + i), W: uint64(1 + g.r.Intn(maxw))})
+		w := uint64(1 + g.r.Intn(maxw))
+		if maxw < 0 { // huge weights: totals around 2^62 .. 2^65 (uint64 arithmetic of the thresholds; overflowing totals must be rejected)
+			w = uint64(1)<<uint(60+g.r.Intn(4)) + uint64(g.r.Intn(3))
+		}
+		vs = append(vs, Val{A: uint32(base + i), W: w})
 	}
 	// shuffle: SetBFTParameters must sort
 	for i := len(vs) - 1; i > 0; i-- {
@@ -33,6 +37,9 @@ func (g *gen) valset(n, base int, maxw int) []Val {
 func total(vs []Val) uint64 {
 	t := uint64(0)
 	for _, v := range vs {
+		if t+v.W < t {
+			return 3 // overflowing total: any threshold, the parameters must be rejected
+		}
 		t += v.W
 	}
 	return t
@@ -50,7 +57,7 @@ func (g *gen) change(n, base, maxw int) Change {
 		case 2:
 			return W*2/3 + 1
 		}
-		return lo + uint64(g.r.Intn(int(W-lo+1)))
+		return lo + g.r.U64()%(W-lo+1)
 	}
 	ch := Change{PC: pick(), Cert: pick(), Vals: vs, Standby: []uint32{}}
 	for i := g.r.Intn(3); i > 0; i-- {
@@ -70,6 +77,9 @@ func (g *gen) history(long bool) Case {
 	maxw := 1
 	if r.Bool() {
 		maxw = 1 + r.Intn(4)
+	}
+	if r.Intn(14) == 0 {
+		maxw = -1
 	}
 	c := Case{K: "hist", Batch: batch, GH: uint32(r.Intn(3)) * uint32(r.Intn(50)), Commit: r.Intn(5) != 0}
 	c.Init = g.change(n, 1, maxw)
@@ -99,14 +109,24 @@ func (g *gen) history(long bool) Case {
 			}
 		}
 		b.Gen = sorted[i%len(sorted)].A
-		switch r.Intn(12) {
+		huge := maxw < 0 // huge weights: protocol-following generators only, so that no weight is counted twice (on a valid
+		// chain every weight is at most the total < 2^64 — C02_prevote_weight_is_sum — whereas an invalid history may wrap uint64)
+		dev := r.Intn(12)
+		if huge {
+			dev = 99
+		}
+		switch dev {
 		case 0:
 			b.Gen = sorted[r.Intn(len(sorted))].A
 		case 1:
 			b.Gen = uint32(1 + r.Intn(12)) // possibly not a validator
 		}
 		b.MHG = lastForged[b.Gen]
-		switch r.Intn(14) {
+		dev = r.Intn(14)
+		if huge {
+			dev = 99
+		}
+		switch dev {
 		case 0:
 			b.MHG = uint32(r.Intn(int(h) + 2))
 		case 1:
